@@ -8,9 +8,10 @@ from . import common as C
 ID = "C05"
 ASSUMPTIONS = [
     "durations are arbitrary integers >= 0 (z3 Int); no ready-operations filter installed (available = ready)",
-    "query sequences: every single query, every ordered pair of the 14 queries issued on a dispatcher that reached the "
+    "query sequences: every single query, every ordered pair of the 16 queries issued on a dispatcher that reached the "
     "state by replaying the history (quick, thorough), every pair split across a dispatch and every ordered triple on the "
     "smaller shapes (thorough); plus all queries in every earlier state of the main dispatcher (staleness)",
+    "reset mode: a first episode of every length with all queries asked in every state, then Dispatcher.reset(), then every history with all queries in every state",
     "collections are compared as sets of operation ids plus 'no duplicates'; order is not demanded",
     "is_ongoing/remaining_duration are not among the queries named by the property and are not checked",
 ]
@@ -20,16 +21,16 @@ BUDGET = {"quick": 480, "thorough": 3000}
 QUERIES = ["current_time", "available_operations", "raw_ready_operations", "unscheduled_operations",
            "scheduled_operations", "available_machines", "available_jobs", "completed_operations",
            "uncompleted_operations", "ongoing_operations", "earliest_start_time", "next_operation",
-           "is_scheduled", "observer_view"]
+           "is_scheduled", "observer_view", "min_start_time", "start_time"]
 
 
 def bounds(tier):
     if tier == "quick":
         return ("ordered shapes <=3 jobs and <=3 operations plus (2,2): every machine assignment M<=2 (non-flexible), "
                 "every flexible structure M<=2 on <=2 operations; all interleavings x machine choices; in every state all "
-                "14x14 ordered query pairs; durations Z>=0")
+                "16x16 ordered query pairs; durations Z>=0")
     return ("ordered shapes <=3 jobs <=4 operations M<=2 non-flexible and flexible <=3 operations with all pairs and all "
-            "pairs split across a dispatch; all 14^3 triples on shapes with <=3 operations (M<=2, non-flexible)")
+            "pairs split across a dispatch; all 16^3 triples on shapes with <=3 operations (M<=2, non-flexible)")
 
 
 def subspaces(tier):
@@ -37,7 +38,9 @@ def subspaces(tier):
     if tier == "quick":
         out += C.structure_subspaces(D.shapes(3, 3) + [(2, 2)], 2, False, mode="pairs")
         out += C.structure_subspaces(D.shapes(2, 2), 2, True, only_flexible=True, mode="pairs")
+        out += C.structure_subspaces(D.shapes(2, 3), 2, False, mode="reset")
     else:
+        out += C.structure_subspaces(D.shapes(3, 4), 2, False, mode="reset")
         out += C.structure_subspaces(D.shapes(3, 4), 2, False, mode="pairs")
         out += C.structure_subspaces(D.shapes(3, 3), 2, True, only_flexible=True, mode="pairs")
         out += C.structure_subspaces(D.shapes(3, 4), 2, False, mode="split")
@@ -46,7 +49,7 @@ def subspaces(tier):
 
 
 def cost(sp):
-    return C.cost(sp) * {"pairs": 1, "split": 1, "triples": 14}[sp["mode"]]
+    return C.cost(sp) * {"pairs": 1, "split": 1, "triples": 14, "reset": 0.2}[sp["mode"]]
 
 
 # ---------------------------------------------------------------------------
@@ -70,6 +73,14 @@ def ask(q, disp, obs, inst, desc, spec):
         return res
     if q == "is_scheduled":
         return [bool(disp.is_scheduled(D.op_by_id(inst, o))) for o in range(desc.n_ops)]
+    if q == "min_start_time":
+        ready = spec.ready_ops()
+        subs = [[o] for o in ready] + ([ready] if len(ready) > 1 else [])
+        subs.reverse()
+        return [(L, disp.min_start_time([D.op_by_id(inst, o) for o in L])) for L in subs]
+    if q == "start_time":
+        return [(o, m, disp.start_time(D.op_by_id(inst, o), m)) for o in reversed(spec.ready_ops())
+                for m in reversed(desc.machines[o])]
     if q == "observer_view":
         return (_ids(list(obs.unscheduled_operations)), obs.num_unscheduled_operations,
                 [_ids(list(dq)) for dq in obs.unscheduled_operations_per_job])
@@ -148,6 +159,10 @@ def check(eng, q, res, desc, spec, ctx):
             eng.fail(key, f"got {res} expected {exp}")
         else:
             eng.prove(True, key)
+    elif q == "min_start_time":
+        eng.prove(vand([veq(v, spec.min_start(L)) for L, v in res]) if res else True, key)
+    elif q == "start_time":
+        eng.prove(vand([veq(v, spec.forced_start(o, m)) for o, m, v in res]) if res else True, key)
     elif q == "observer_view":
         ids, num, per_job = res
         exp_per_job = [[o for o in job if o not in spec.start] for job in desc.jobs]
@@ -188,6 +203,19 @@ def harness(eng, sp):
     mode = sp["mode"]
     nq = len(QUERIES)
     prev_spec = None
+    if mode == "reset":
+        # an earlier episode of chosen length, then reset(); answers must not reflect it
+        n1 = 1 + eng.choice(desc.n_ops, "first-episode-length")
+        s1 = Spec(desc)
+        for _ in range(n1):
+            for q in QUERIES:
+                _safe(eng, q, "first-episode", lambda: ask(q, main, main_obs, inst, desc, s1))
+            op, m = D.choose_dispatch(eng, desc, s1)
+            main.dispatch(D.op_by_id(inst, op), m)
+            s1.apply(op, m)
+        for q in QUERIES:
+            _safe(eng, q, "first-episode", lambda: ask(q, main, main_obs, inst, desc, s1))
+        main.reset()
     for k in range(desc.n_ops + 1):
         eng.reachable("state")
         # (1) main dispatcher: all queries in a rotating order (stale answers from earlier states show here)
@@ -195,7 +223,8 @@ def harness(eng, sp):
             q = QUERIES[(i + k) % nq]
             ok, res = _safe(eng, q, "main", lambda: ask(q, main, main_obs, inst, desc, spec))
             if ok:
-                check(eng, q, res, desc, spec, "after-all-queries-in-earlier-states")
+                check(eng, q, res, desc, spec, "after-all-queries-in-earlier-states" if mode != "reset"
+                      else "after-reset")
         # (2) ordered sequences on replicas
         if mode == "pairs":
             for q1 in QUERIES:
